@@ -44,6 +44,15 @@ pub fn verdict_for(spec: &SeqSpec, case: &SeqCase, out: &Outcome) -> Verdict {
             if case.cfg.classes.slots().contains(&0) {
                 classes.push("cfg_zero_slot_class");
             }
+            if case.cfg.classes.ids().iter().enumerate().any(|(i, &id)| id as usize != i) {
+                classes.push("cfg_class_ids_with_gaps");
+            }
+            if case.cfg.trees() > 4 {
+                classes.push("cfg_5_to_24_trees");
+            }
+            if case.cfg.classes.slots().iter().any(|&s| s > 3) {
+                classes.push("cfg_4_to_17_slots");
+            }
             Verdict::Pass {
                 nontrivial: (spec.nontrivial)(case, out),
                 classes,
